@@ -263,6 +263,10 @@ func (c *SpecCtx) eval(e Expr) Val {
 			return Val{T: "nil", Typ: types.Typ[types.UntypedNil]}
 		}
 		if v, ok := c.lookup(e.Name); ok {
+			if v.Cell {
+				// captured variable: its content in the state this expression is evaluated in (old() = at closure entry)
+				return Val{T: c.vc.load(c.st, v.T, v.Typ), Typ: v.Typ}
+			}
 			return v
 		}
 		if c.pkg != nil {
